@@ -17,6 +17,8 @@ struct LinkHist {
     /// Since when the liveness precondition has held continuously while the link is down.
     ok_since: Option<u64>,
     ever_established: bool,
+    /// The sender tore the link down (socket replaced / recovery) since it was last connected.
+    torn_down_since_connected: bool,
 }
 
 #[derive(Default)]
@@ -144,6 +146,9 @@ impl Monitor for C08 {
             }
             let reg_err = ctx.uplink.iter().any(|(c, b)| *c == pre.conn_id && ptype(b) == Some(T_REG_ERR));
             let torn = pre.fd != post.fd || (pre.connected && !post.connected && !reg_err) || pre.last_attempt_ms != post.last_attempt_ms;
+            if torn {
+                h.torn_down_since_connected = true;
+            }
             if torn && pre.connected {
                 out.probe("c08.teardown_of_connected_link");
                 let timeout_lo = applied_before[&pre.conn_id].min(ctx.cfg.conn_timeout_ms);
@@ -199,7 +204,13 @@ impl Monitor for C08 {
                 h.last_attempt = Some(ctx.now);
             }
             // ---- clean rejoin ----
-            if !pre.connected && post.connected && h.ever_established && ctx.uplink.len() == 1 && ptype(&ctx.uplink[0].1) == Some(T_REG3) {
+            // (a link that was only rejected by the peer - REG_ERR - and is accepted again before the
+            // sender ever tore it down has not been reset; the clause is about torn-down uplinks)
+            let was_torn = h.torn_down_since_connected;
+            if !pre.connected && post.connected {
+                h.torn_down_since_connected = false;
+            }
+            if !pre.connected && post.connected && h.ever_established && was_torn && ctx.uplink.len() == 1 && ptype(&ctx.uplink[0].1) == Some(T_REG3) {
                 out.probe("c08.rejoin");
                 let warming = matches!(post.phase, LinkPhase::Warming { rtt_probes: 0, .. });
                 if post.window != 20_000 || post.in_flight != 0 || !warming {
